@@ -110,6 +110,18 @@ class PokerProp(Prop):
         while True:
             yield self.gen_case(rng)
 
+    small_scope = False          # thorough tier: all action trees of the small tables (C03, C04, C13)
+
+    def exhaustive(self, tier, shard, nshards):
+        if tier != "thorough" or not self.small_scope:
+            return
+        cfgs = poker.small_configs()
+        for i, cfg in enumerate(cfgs):
+            if i % nshards != shard:
+                continue
+            for case in poker.enumerate_tree(cfg, max_leaves=120):
+                yield case
+
     def impl(self, case):
         rec, _ = poker.run_ops(case)
         return rec
@@ -228,6 +240,7 @@ def after_append(prev, op):
 
 class C03(PokerProp):
     pid = "C03"
+    small_scope = True
     title = "betting protocol: actor is live, clockwise order, closure rule, fold-out, run-out, 3/1/1 dealing"
     fields = ("street", "action", "board", "deck", "last", "complete", "closed")
     compare_results = False
@@ -324,6 +337,7 @@ def spec_closed_obs(o):
 
 class C04(PokerProp):
     pid = "C04"
+    small_scope = True
     title = "wager legality: accepted iff legal (seat, type, size); rejected actions leave the state unchanged"
     fields = ("toCall", "minBet", "maxBet", "valid", "stacks", "pot")
     compare_results = True
@@ -367,6 +381,7 @@ class C04(PokerProp):
 
 class C13(PokerProp):
     pid = "C13"
+    small_scope = True
     title = "progress: a legal action always exists, legal actions never fail internally, hands terminate, complete shape"
     fields = ("complete", "street")
     compare_results = True
